@@ -17,19 +17,6 @@ Core Lean only.
 -/
 namespace MV.Model.RingUnbounded
 
-/-! The program texts this model was transcribed from, in the canonical form the harness op
-`facts ring_unbounded.go <Func>` prints from the go/ast of /repo/toolkit/buffer/ring_unbounded.go
-(compared on every run by the suite `queue-facts`). -/
-
-def writeProg : String :=
-  "b.closedMutex.RLock(); defer b.closedMutex.RUnlock(); if(b.closed){ return }; b.rrm.Lock(); b.ring.Write(v); b.cond.Signal(); b.rrm.Unlock()"
-
-def closeProg : String :=
-  "b.closedMutex.Lock(); defer b.closedMutex.Unlock(); if(b.closed){ return b.closedSignal }; b.closed=true; b.rrm.Lock(); b.cond.Signal(); b.rrm.Unlock(); return b.closedSignal"
-
-def processProg : String :=
-  "go{ loop{ b.closedMutex.RLock(); b.rrm.Lock(); vs=b.ring.ReadAll(); if(len(vs)==0&&!b.closed){ b.closedMutex.RUnlock(); b.cond.Wait(); b.rrm.Unlock(); continue } else{ b.closedMutex.RUnlock() }; b.rrm.Unlock(); b.closedMutex.RLock(); if(b.closed&&len(vs)==0){ close(b.rc); close(b.closedSignal); b.closedMutex.RUnlock(); break }; range(vs){ send(b.rc,v) }; b.closedMutex.RUnlock() } }"
-
 inductive Op where
   | write (v : Int) | close
   deriving Repr, DecidableEq
@@ -71,6 +58,60 @@ inductive PPC where
   | pRUnlockX                   -- b.closedMutex.RUnlock(); break
   | pDone
   deriving Repr, DecidableEq
+
+/-- the operation a client thread at `pc` executes next, as printed in the program text -/
+def PC.instr : PC → String
+  | .wRLock _ => "b.closedMutex.RLock()"
+  | .wCheck _ => "if(b.closed){ return }"
+  | .wLockM _ => "b.rrm.Lock()"
+  | .wWrite _ => "b.ring.Write(v); b.cond.Signal()"
+  | .wUnlockM => "b.rrm.Unlock()"
+  | .wRUnlock => "b.closedMutex.RUnlock()"
+  | .cLock => "b.closedMutex.Lock()"
+  | .cCheck => "if(b.closed){ return b.closedSignal }; b.closed=true"
+  | .cLockM => "b.rrm.Lock()"
+  | .cSignal => "b.cond.Signal()"
+  | .cUnlockM => "b.rrm.Unlock()"
+  | .cUnlock => "b.closedMutex.Unlock()"
+  | .done => ""
+
+/-- the operation the pump at `pc` executes next (`cond.Wait` is two steps: enqueue + release, then
+re-acquire after the wake-up) -/
+def PPC.instr : PPC → String
+  | .pRLock => "b.closedMutex.RLock()"
+  | .pLockM => "b.rrm.Lock()"
+  | .pRead => "vs=b.ring.ReadAll(); if(len(vs)==0&&!b.closed)"
+  | .pRUnlockW => "b.closedMutex.RUnlock()"
+  | .pWait => "b.cond.Wait()"
+  | .pSleep => ""
+  | .pUnlockMC => "b.rrm.Unlock(); continue"
+  | .pRUnlockE _ => "b.closedMutex.RUnlock()"
+  | .pUnlockME _ => "b.rrm.Unlock()"
+  | .pRLock2 _ => "b.closedMutex.RLock()"
+  | .pCheck _ => "if(b.closed&&len(vs)==0){ close(b.rc); close(b.closedSignal)"
+  | .pSend _ => "range(vs){ send(b.rc,v) }"
+  | .pRUnlockL => "b.closedMutex.RUnlock()"
+  | .pRUnlockX => "b.closedMutex.RUnlock(); break"
+  | .pDone => ""
+
+/-! The program texts this model was transcribed from, in the canonical form the harness op
+`facts ring_unbounded.go <Func>` prints from the go/ast of /repo/toolkit/buffer/ring_unbounded.go
+(compared on every run by the suite `queue-facts`).  The operations are spliced in from
+`PC.instr`/`PPC.instr` in program order (deferred unlocks where the `defer` statement stands). -/
+
+def writeProg : String :=
+  (PC.wRLock 0).instr ++ "; defer " ++ PC.wRUnlock.instr ++ "; " ++ (PC.wCheck 0).instr ++ "; " ++ (PC.wLockM 0).instr ++
+  "; " ++ (PC.wWrite 0).instr ++ "; " ++ PC.wUnlockM.instr
+
+def closeProg : String :=
+  PC.cLock.instr ++ "; defer " ++ PC.cUnlock.instr ++ "; " ++ PC.cCheck.instr ++ "; " ++ PC.cLockM.instr ++ "; " ++
+  PC.cSignal.instr ++ "; " ++ PC.cUnlockM.instr ++ "; return b.closedSignal"
+
+def processProg : String :=
+  "go{ loop{ " ++ PPC.pRLock.instr ++ "; " ++ PPC.pLockM.instr ++ "; " ++ PPC.pRead.instr ++ "{ " ++ PPC.pRUnlockW.instr ++
+  "; " ++ PPC.pWait.instr ++ PPC.pSleep.instr ++ "; " ++ PPC.pUnlockMC.instr ++ " } else{ " ++ (PPC.pRUnlockE []).instr ++
+  " }; " ++ (PPC.pUnlockME []).instr ++ "; " ++ (PPC.pRLock2 []).instr ++ "; " ++ (PPC.pCheck []).instr ++ "; " ++
+  PPC.pRUnlockX.instr ++ " }; " ++ (PPC.pSend []).instr ++ "; " ++ PPC.pRUnlockL.instr ++ " } }"
 
 structure Thread where
   pc : PC
